@@ -252,8 +252,21 @@ func (c *Ctx) RunNode(js string, o NodeOpt) Run {
 
 // NodeCheck runs the syntax sanitizer on an emitted file.
 func (c *Ctx) NodeCheck(js string) (bool, string) {
-	r := Exec(filepath.Dir(js), BaseEnv(), 60*time.Second, "", "node", "--check", js)
-	return r.Exit == 0 && !r.TimedOut, r.Stderr
+	ok, msg, _ := c.NodeCheck3(js)
+	return ok, msg
+}
+
+// NodeCheck3 is the three-valued form: a file is invalid only if node itself reports a
+// SyntaxError; a watchdog firing or node dying otherwise (loaded machine) is inconclusive.
+func (c *Ctx) NodeCheck3(js string) (ok bool, msg string, inconclusive bool) {
+	r := Exec(filepath.Dir(js), BaseEnv(), 3*time.Minute, "", "node", "--check", js)
+	if r.Exit == 0 && !r.TimedOut {
+		return true, "", false
+	}
+	if !r.TimedOut && strings.Contains(r.Stderr, "SyntaxError") {
+		return false, r.Stderr, false
+	}
+	return true, r.Stderr, true
 }
 
 // NativeOpt controls the reference build.
